@@ -115,6 +115,12 @@ func c09Gen(t *rapid.T) interface{} {
 			Edits: []edit{{Kind: "suboov", Pos: lib.IntN(t, 0, 9000, "p"), Arg: 1}, {Kind: "del", Pos: lib.IntN(t, 0, 9000, "p")}, {Kind: "insoov", Pos: lib.IntN(t, 0, 9000, "p"), Arg: 2}}}}})
 		np++
 	}
+	if lib.IntN(t, 0, 1, "withHugeInput") == 0 {
+		// an input of more than 65536 words (a license behind a very long unrelated block): settings or scratch
+		// state that depend on the size of the whole input are written while other calls read them
+		c.Pool = append(c.Pool, recipe{Segs: []seg{{Kind: "oov", Words: lib.IntN(t, 66000, 90000, "hugeW"), Lines: lib.IntN(t, 50, 3000, "hugeL")}, genDocSeg(t, 0.8, false)}})
+		np++
+	}
 	g := lib.PickInt(t, []int{2, 4, 8, 16, 32, 64}, "goroutines")
 	if (c.Trace > 0 || c.Cold) && g < 8 {
 		g = 16
@@ -261,11 +267,18 @@ func c09Classes(c *c09Case) []string {
 	if c.Cold {
 		out = append(out, "cold-classifier")
 	}
+	for _, r := range c.Pool {
+		for _, sg := range r.Segs {
+			if sg.Kind == "oov" && sg.Words >= 65536 {
+				out = append(out, "input-of-more-than-65536-words")
+			}
+		}
+	}
 	return out
 }
 
 func TestVerif_C09(t *testing.T) {
 	lib.Run(t, lib.Spec{ID: "C09", Part: "concurrent-match",
-		Rule: "batches: 2-64 goroutines released by one barrier, each issuing 2-6 Match/MatchFrom calls on a shared full-corpus classifier over a pool of 3-6 (mostly edited) corpus documents and scenario files, GOMAXPROCS in {2,4,16}; two thirds of the batches run (5 rounds, >= 8 goroutines) on fresh (cold) small-corpus classifiers, half of those with a trace configuration (wildcard license filters, thread-safe Tracer) installed; binary built with -race (any report = violation); every result compared with the sequential reference from a separate classifier instance; non-trivial = at least 2 goroutines and a pool input with a fuzzy match (the diff path that touches shared corpus data)",
+		Rule: "batches: 2-64 goroutines released by one barrier, each issuing 2-6 Match/MatchFrom calls on a shared full-corpus classifier over a pool of 3-6 (mostly edited) corpus documents and scenario files (half of the batches add an input of 66000-90000 words), GOMAXPROCS in {2,4,16}; two thirds of the batches run (5 rounds, >= 8 goroutines) on fresh (cold) small-corpus classifiers, half of those with a trace configuration (wildcard license filters, thread-safe Tracer) installed; binary built with -race (any report = violation); every result compared with the sequential reference from a separate classifier instance; non-trivial = at least 2 goroutines and a pool input with a fuzzy match (the diff path that touches shared corpus data)",
 		New:  func() interface{} { return &c09Case{} }, Gen: c09Gen, Check: c09Check})
 }
